@@ -472,7 +472,7 @@ func (pr *Program) Explore(entry *ssa.Function, opts Options) *Result {
 	// memory watchdog: a run that outgrows its budget is stopped and reported, never killed by the OS
 	done := make(chan struct{})
 	go func() {
-		limit := uint64(opts.bound("mem_mb", 6000)) << 20
+		limit := uint64(opts.bound("mem_mb", 3000)) << 20
 		tick := time.NewTicker(300 * time.Millisecond)
 		defer tick.Stop()
 		for {
